@@ -20,10 +20,14 @@ def binomPmf (n : Nat) (p : Float) : Array Float := Id.run do
     out := out.push logw.exp
   return out
 
-/-- documented slacks (spec/slack.json): the minimum coverage over the region n·p, n·(1−p) ≥ 10 may
-    fall at most this far below the nominal level -/
-def slackMin (level : Float) : Float :=
-  if level ≤ 0.81 then 0.07 else if level ≤ 0.91 then 0.045 else if level ≤ 0.951 then 0.03 else 0.013
+/-- documented slack (spec/slack.json): at a point p of the region n·p, n·(1−p) ≥ 10 the coverage may
+    fall at most `a(L)/√(n p (1−p)) + 0.005` below the nominal level (the oscillation of the coverage of
+    a lattice statistic scales with the lattice spacing 1/√(n p (1−p)), not with 1/√n) -/
+def slackA (level : Float) : Float :=
+  if level ≤ 0.81 then 0.23 else if level ≤ 0.91 then 0.125 else if level ≤ 0.951 then 0.08 else 0.027
+
+def slackAt (level : Float) (n : Nat) (p : Float) : Float :=
+  slackA level / (Float.ofNat n * p * (1.0 - p)).sqrt + 0.005
 
 /-- documented tolerance on the mean coverage over p -/
 def slackMean (_twoSided : Bool) (_n : Nat) : Float := 0.004
@@ -33,13 +37,21 @@ structure CoverStat where
   min : Float
   argmin : Float
   points : Nat
+  /-- the point with the largest excess of the shortfall over its allowance (and that excess) -/
+  worstExcess : Float := -1.0
+  worstAt : Float := 0.0
+  worstCov : Float := 0.0
 
 /-- coverage of a family of intervals (indexed by the outcome k) over a grid of p -/
-def coverage (n : Nat) (grid : Nat) (cover : Nat → Float → Bool) : CoverStat := Id.run do
+def coverage (n : Nat) (grid : Nat) (cover : Nat → Float → Bool)
+    (allow : Float → Float := fun _ => 0.0) (level : Float := 0.0) : CoverStat := Id.run do
   let mut sum := 0.0
   let mut cnt := 0
   let mut mn := 2.0
   let mut arg := 0.0
+  let mut wex := -1.0
+  let mut wat := 0.0
+  let mut wcov := 0.0
   for j in [1:grid] do
     let p := Float.ofNat j / Float.ofNat grid
     if Float.ofNat n * p ≥ 10.0 && Float.ofNat n * (1.0 - p) ≥ 10.0 then
@@ -52,7 +64,12 @@ def coverage (n : Nat) (grid : Nat) (cover : Nat → Float → Bool) : CoverStat
       if c < mn then
         mn := c
         arg := p
-  return ⟨if cnt == 0 then 0.0 / 0.0 else sum / Float.ofNat cnt, mn, arg, cnt⟩
+      let ex := (level - c) - allow p
+      if ex > wex then
+        wex := ex
+        wat := p
+        wcov := c
+  return ⟨if cnt == 0 then 0.0 / 0.0 else sum / Float.ofNat cnt, mn, arg, cnt, wex, wat, wcov⟩
 
 def pairsOf : List String → List (String × String)
   | a :: b :: rest => (a, b) :: pairsOf rest
@@ -78,17 +95,17 @@ def coverOp (args : List String) : Option OpEval := do
         | .twoSided _ => true
         | _ => false
       let grid := if n ≤ 400 then 2000 else if n ≤ 1000 then 1000 else 400
-      let st := coverage n grid fun k p =>
+      let st := coverage n grid (fun k p =>
         match ivs[k]? with
         | some (some (lo, hi)) => lo ≤ p && p ≤ hi
-        | _ => false
+        | _ => false) (slackAt level n) level
       let cs :=
         if st.points == 0 then [] else
         -- the mean is taken over the grid points of the region; it needs a region, not a point
         (if st.points < 100 || (st.mean - level).abs ≤ slackMean two n then []
          else [s!"mean-coverage({st.mean})-not-within-{slackMean two n}-of-nominal({level})"]) ++
-        (if st.min ≥ level - slackMin level then []
-         else [s!"coverage({st.min})-at-p={st.argmin}-more-than-{slackMin level}-below-nominal({level})"])
+        (if st.worstExcess ≤ 0.0 then []
+         else [s!"coverage({st.worstCov})-at-p={st.worstAt}-more-than-{slackAt level n st.worstAt}-below-nominal({level})"])
       { model := model, prop := cs,
         info := [s!"cover n={n} kind={kindOfConf conf} level={level} mean={st.mean} min={st.min} at={st.argmin} points={st.points}"] } }
 
